@@ -72,6 +72,7 @@ def verify_function(spec: Spec, key: str, base_axioms=None) -> FnResult:
     ex = Exec(spec)
     ex.C = C
     ex.loop_index = number_loops(node)
+    ex.fn_node = node
     ex.ch = Chooser((base_axioms if base_axioms is not None else smt.class_axioms()), budget=C.path_budget)
     try:
         while ex.ch.next_path():
@@ -221,3 +222,130 @@ def check_exit(ex: Exec, C: FnContract, env0, outcome, result: V, exc, res: FnRe
         ex.oblige('frame@exit', 'ctx:' + key, ex.eq(v0, v1), ('frame',))
     if ex.ch.fresh_part and (len(res.canaries) < 3 or (len(res.canaries) < 12 and (res.completed % 7 == 0 or not any(c.name.endswith(outcome) for c in res.canaries)))):
         res.canaries.append(Obligation('%s/canary:%s' % (C.key, outcome), st.pc, z3.BoolVal(False), ('canary',), {'trace': list(st.trace)}))
+
+
+# ---------------------------------------------------------------------------------------------
+# parallel driver: one task = one path (identified by its decision prefix), executed and discharged in a worker process
+
+_W: dict = {}
+
+
+def _worker_path(args):
+    key, prefix = args
+    spec, axioms, timeout_ms = _W['spec'], _W['axioms'], _W['timeout_ms']
+    C = spec.functions[key]
+    t0 = time.time()
+    out = {'key': key, 'prefix': prefix, 'new': [], 'records': [], 'canaries': [], 'refused': None, 'completed': 0, 'exits': {'normal': 0, 'raise': 0},
+           'notes': [], 'dropped': [], 'feas': 0}
+    try:
+        node, info = extract.find_function(C.file, C.qual)
+        ex = Exec(spec)
+        ex.C = C
+        ex.loop_index = number_loops(node)
+        ex.fn_node = node
+        ex.ch = Chooser(axioms, budget=10 ** 9)
+        ex.ch.pending = [list(prefix)]
+        res = FnResult(key)
+        ex.ch.next_path()
+        run_path(ex, C, node, res)
+        out['new'] = [list(p) for p in ex.ch.pending]
+        out['completed'] = res.completed
+        out['exits'] = res.exits
+        out['notes'] = sorted(set(ex.notes))
+        out['dropped'] = sorted(ex.dropped)
+        out['feas'] = ex.ch.feas_checks
+        import zlib
+        keep_canary = zlib.crc32(repr(prefix).encode()) % 8 == 0 or not prefix
+        obls = ex.obligations + (res.canaries if keep_canary else [])
+        smt._OBLS, smt._AXIOMS, smt._TIMEOUT_MS = obls, axioms + smt.literal_axioms(), timeout_ms
+        for i, ob in enumerate(obls):
+            _, verdict, model, t, solver, reason = smt._check_one(i)
+            rec = {'name': ob.name, 'tags': list(ob.tags), 'verdict': verdict, 'model': model, 'time': t, 'solver': solver, 'reason': reason,
+                   'line': ob.meta.get('line'), 'trace': ob.meta.get('trace'), 'origin': ob.meta.get('origin')}
+            (out['canaries'] if 'canary' in ob.tags else out['records']).append(rec)
+    except Unsupported as e:
+        out['refused'] = 'unsupported: %s' % e
+    except Exception as e:
+        out['refused'] = 'engine error: %s\n%s' % (e, traceback.format_exc()[-1500:])
+    out['time'] = time.time() - t0
+    return out
+
+
+class Rec:
+    """Picklable obligation record (what check.py aggregates)."""
+    def __init__(self, d):
+        self.__dict__.update(d)
+        self.meta = {'line': d.get('line'), 'trace': d.get('trace'), 'origin': d.get('origin')}
+        self.tags = tuple(d.get('tags', ()))
+
+
+def verify_many(spec: Spec, keys, axioms, timeout_ms=10000, procs=16) -> list:
+    """Verify several functions at once: every path of every function is a task of one fork pool."""
+    import multiprocessing
+    results = {}
+    t0 = time.time()
+    _W.update(spec=spec, axioms=axioms, timeout_ms=timeout_ms)
+    todo = []
+    for key in keys:
+        C = spec.functions[key]
+        res = FnResult(key)
+        results[key] = res
+        if C.trusted or C.file is None:
+            res.notes.append('trusted contract (body not verified)')
+            continue
+        try:
+            node, info = extract.find_function(C.file, C.qual)
+        except KeyError as e:
+            res.refused = 'extraction failed: %s' % e
+            continue
+        res.info = info
+        todo.append(key)
+    if todo:
+        pool = multiprocessing.get_context('fork').Pool(procs)
+        try:
+            pending = [(k, pool.apply_async(_worker_path, ((k, []),))) for k in todo]
+            submitted = {k: 1 for k in todo}
+            notes = {k: set() for k in todo}
+            dropped = {k: set() for k in todo}
+            while pending:
+                ready = [(k, h) for (k, h) in pending if h.ready()]
+                if not ready:
+                    pending[0][1].wait(0.02)
+                    continue
+                rs = set(id(h) for _, h in ready)
+                pending = [(k, h) for (k, h) in pending if id(h) not in rs]
+                for key, h in ready:
+                    res = results[key]
+                    C = spec.functions[key]
+                    out = h.get()
+                    res.paths += 1
+                    res.time += out.get('time', 0.0)
+                    if out['refused'] and not res.refused:
+                        res.refused = out['refused']
+                    res.completed += out['completed']
+                    for k in res.exits:
+                        res.exits[k] += out['exits'][k]
+                    res.feas_checks += out['feas']
+                    notes[key].update(out['notes'])
+                    dropped[key].update(out['dropped'])
+                    res.obligations += [Rec(r) for r in out['records']]
+                    if len(res.canaries) < 24:
+                        res.canaries += [Rec(r) for r in out['canaries']]
+                    if res.refused:
+                        continue
+                    for pfx in out['new']:
+                        if submitted[key] >= C.path_budget:
+                            res.refused = 'path budget exceeded: more than %d paths' % C.path_budget
+                            break
+                        submitted[key] += 1
+                        pending.append((key, pool.apply_async(_worker_path, ((key, pfx),))))
+            for k in todo:
+                results[k].notes = sorted(notes[k])
+                results[k].dropped = sorted(dropped[k])
+        finally:
+            pool.terminate()
+    return [results[k] for k in keys]
+
+
+def verify_function_parallel(spec: Spec, key: str, axioms, timeout_ms=10000, procs=16, pool=None) -> FnResult:
+    return verify_many(spec, [key], axioms, timeout_ms, procs)[0]
